@@ -293,14 +293,25 @@ R_DIDK = [f"{_RK}.vmFrom_run", f"{_RK}.findSome_vmFrom", f"{_RK}.verifyOwnership
           f"{_RK}.updateDID_refines", f"{_RK}.deactivateDID_refines"]
 _RB = "Panacea.Refine.Burn"
 R_BURN = [f"{_RB}.burnCoins_refines", f"{_RB}.burnCoins_bad_address"]
+_RP = "Panacea.Refine.Pnft"
+R_PNFTV = [f"{_RP}.createDenom_vb", f"{_RP}.updateDenom_vb", f"{_RP}.deleteDenom_vb", f"{_RP}.transferDenom_vb",
+           f"{_RP}.mint_vb", f"{_RP}.transfer_vb", f"{_RP}.burn_vb"]
+R_PNFTH = [f"{_RP}.createDenom_refines", f"{_RP}.updateDenom_refines", f"{_RP}.deleteDenom_refines",
+           f"{_RP}.transferDenom_refines", f"{_RP}.mint_refines", f"{_RP}.transfer_refines", f"{_RP}.burn_refines",
+           f"{_RP}.goStep_abs", f"{_RP}.goRun_abs"]
+_RPP = "Panacea.Refine.PnftProps"
+R_PNFTP06 = [f"{_RP}.translated_denom_ops_require_current_owner", f"{_RP}.translated_token_ops_require_current_owner"]
+R_PNFTP12 = [f"{_RP}.translated_history_invariants"]
 REFINE = {
     "C18": ([_RC], R_COMPKEY),
     "C01": ([_RA], R_COMPKEY + R_AOL),
     "C13": ([_RA], R_COMPKEY + R_AOL),
     "C02": ([_RA, _RT], R_AOL + R_SIGNERS),
     "C15": ([_RT], R_SIGNERS),
-    "C16": ([_RT, _RD], R_VB + R_DIDV),
-    "C17": ([_RT, _RC, _RD], R_VB + R_SIGNERS + R_COMPKEY + R_DIDV[-3:]),
+    "C16": ([_RT, _RD, _RP], R_VB + R_DIDV + R_PNFTV),
+    "C17": ([_RT, _RC, _RD, _RP], R_VB + R_SIGNERS + R_COMPKEY + R_DIDV[-3:] + R_PNFTV),
+    "C06": ([_RP, _RPP], R_PNFTV + R_PNFTH + R_PNFTP06),
+    "C12": ([_RP, _RPP], R_PNFTH + R_PNFTP12),
     "C11": ([_RD, _RK], R_DIDV[-4:] + R_DIDK[3:5]),
     "C03": ([_RD, _RK], R_DIDV[3:5] + R_DIDV[6:7] + R_DIDK),
     "C07": ([_RB], R_BURN),
@@ -308,5 +319,5 @@ REFINE = {
     "C05": ([_RK], R_DIDK[3:]),
 }
 REFINE_TRUSTED = [
-    "translator /verif/extract/code.go (Go → Lean `do`-blocks, statement by statement; anything it does not understand becomes `Go.unsupported`, which no refinement proof survives) and the meaning of its primitives lean/Panacea/Go/{Prelude,Lib}.lean (slices as lists with bounds checks that panic, `int` as unbounded Int, uint64 wrap-around, pointers as Option with panicking dereference, KV store as a sorted association list, bech32, the signature scheme and the protobuf codec as parameters — the codec with the two laws of LawfulProto and, for x/did, three facts about the encoding of documents (a length-prefixed value is never empty; the zero document encodes to the empty string; DIDDocument{Id: d} encodes to the bytes the model writes out), repeated message fields without nil elements (what protobuf decoding produces), decoded addresses never empty)",
+    "translator /verif/extract/code.go (Go → Lean `do`-blocks, statement by statement; anything it does not understand becomes `Go.unsupported`, which no refinement proof survives) and the meaning of its primitives lean/Panacea/Go/{Prelude,Lib}.lean (slices as lists with bounds checks that panic, `int` as unbounded Int, uint64 wrap-around, pointers as Option with panicking dereference, KV store as a sorted association list, bech32, the signature scheme and the protobuf codec as parameters — the codec with the two laws of LawfulProto and, for x/did, three facts about the encoding of documents (a length-prefixed value is never empty; the zero document encodes to the empty string; DIDDocument{Id: d} encodes to the bytes the model writes out), repeated message fields without nil elements (what protobuf decoding produces), decoded addresses never empty); for x/pnft the SDK's x/nft keeper is the hand-written lean/Panacea/Go/Nft.lean (five key spaces, SaveClass/UpdateClass/Mint/Burn/Transfer as in v0.47.12), `AccAddress(nil).String() = \"\"` is the hypothesis EncNil and the handler's block time is the model's `now`",
 ]
